@@ -343,11 +343,14 @@ fn base_values() -> Vec<Val> {
     v.push(Val { hk: 2, svc: 0x8001, asn: 0, isd: 0, port: 0, ..z.clone() });
     v.push(Val { hk: 2, svc: 0x10, asn: u32::MAX as u64, ..z.clone() });
     v.push(Val { hk: 0, v4: [255, 255, 255, 255], asn: (1 << 48) - 1, ..z.clone() });
+    // unnamed service addresses, anycast and multicast ("<SVC:0x1234>", "<SVC:0x1234>_M")
+    v.push(Val { hk: 2, svc: 0x1234, ..z.clone() });
+    v.push(Val { hk: 2, svc: 0x9234, ..z.clone() });
     v
 }
 
 const ALPHABET: &[char] = &[
-    '[', ']', ',', ':', '-', '#', '_', ' ', 'x', '+', '0', 'é', '1', '9', 'f', 'A', 'M', 'C', 'S', '.', 'g', '<', '>', '\0',
+    '[', ']', ',', ':', '-', '#', '_', ' ', 'x', '+', '0', 'é', '1', '9', 'f', 'A', 'M', 'C', 'S', '.', 'g', '<', '>', '\0', '8',
 ];
 
 fn edit_corpus() -> Vec<StrCase> {
@@ -431,7 +434,7 @@ fn special_strings() -> Vec<String> {
         "1-ff00:0:110,10.0.0.1]:1000", "[[1-1,1.1.1.1]]:80", "[1-1,::1]:80", "[1-1,[::1]]:80", "1-1,[::1]", "[é:80",
         "[1-1,1.1.1.1]é:80", "65536-1", "1-4294967296", "1-4294967295", "1-ffff:ffff:ffff", "1-1:0:0:0", "1-ffff:ffff:ffff:1",
         "1-10000:0:0", "1--1", "-1-1", "1-", "-", "1-1,", ",1.1.1.1", "1-1,1.1.1.1,", "1-1,,1.1.1.1", "1-1,CS_", "1-1,CS_A",
-        "1-1,CS_M", "1-1,CS_X", "1-1,_M", "CS_A_M", "cs", "Wildcard_M", "<SVC:0x1234>", "<SVC:0x1234>_M", "1-1,<SVC:0x0003>",
+        "1-1,CS_M", "1-1,CS_X", "1-1,_M", "CS_A_M", "cs", "Wildcard_M", "<SVC:0x1234>", "<SVC:0x1234>_M", "1-1,<SVC:0x0003>", "<SVC:0x8005>", "<SVC:0x8005>_M", "<SVC:0x8000>", "<SVC:0xffff>", "<SVC:0x8002>", "1-1,<SVC:0x9234>", "[1-1,<SVC:0x8005>]:80", "<SVC:0x0002>", "<SVC:0x0010>_M", "<SVC:0x12345>", "<SVC:0x123>", "<SVC:0X1234>", "<SVC:0x12AB>", "<svc:0x1234>",
         "1-1,01.1.1.1", "1-1,1.1.1", "1-1,1.1.1.1.1", "1-1,256.1.1.1", "1-1,::ffff:1.2.3.4", "1-1,1::2::3", "1-1,fe80::1%eth0",
         "18446744073709551616", "99999999999999999999999", "0x10", "1_000", " 1", "1 ", "1\n", "\t1-1,1.1.1.1",
         "1-1, 1.1.1.1", "1 -1,1.1.1.1", "[1-1,1.1.1.1] :80", "[1-1,1.1.1.1]: 80", "１-１,1.1.1.1", "1-ｆｆ:0:0",
